@@ -214,6 +214,19 @@ def evaluate(c):
                 chk('NEAR-IMAG', b_, v.imag, 'near field imaginary')
                 chk('NEAR-MAG', mg, abs(v), 'near field magnitude')
                 chk('NEAR-PHASE', ph, math.degrees(cmath_phase(v)), 'near field phase')
+        # MAXIMUM OR PEAK FIELD: the largest instantaneous magnitude of the (in general elliptically polarised) vector,
+        # max_t |Re(F e^jwt)| = sqrt( sum|F_i|^2 / 2 + |sum F_i^2| / 2 )
+        rawpk = re.findall(r'MAXIMUM OR PEAK FIELD =\s*(\S+)', text[text.index('NEAR FIELDS'):])
+        if len(rawpk) == 4:
+            for i, tok in enumerate(rawpk):
+                F = np.array(fields[i], complex)
+                pk = math.sqrt(float(np.sum(np.abs(F) ** 2)) / 2 + abs(np.sum(F * F)) / 2)
+                brute = max(float(np.linalg.norm((F * np.exp(1j * t)).real)) for t in np.linspace(0, math.pi, 721))
+                if abs(brute - pk) > 1e-4 * pk:
+                    viol.append(('HARNESS', 'peak formula %g vs brute force %g' % (pk, brute)))
+                chk('NEAR-PEAK', tok, pk, 'peak of the %s field at point %d' % ('EEHH'[i], i % 2 + 1))
+        else:
+            viol.append(('STRUCT-NEAR', '%s: %d peak lines' % (label, len(rawpk))))
         pts = [b['point'] for b in nb]
         for i, pt in enumerate(pts):
             e = (0.3 * lam + (i % 2) * 0.1 * lam, 0.2 * lam, 0.4 * lam)
